@@ -65,6 +65,7 @@ type Cfg struct {
 	Long           bool            `json:"long,omitempty"` // 4026-block prefix: the history crosses the retarget boundary at height 4032
 	RealAlloc      bool            `json:"real_alloc,omitempty"` // UTXO records in lib/others/memory instead of the Go heap
 	TrustChecker   bool            `json:"trust_checker,omitempty"` // chain.TrustedTxChecker installed: about half of the (really) valid transactions count as verified by the pool
+	FreshDir       bool            `json:"fresh_dir,omitempty"` // the node has block files but has never written a snapshot
 	Young          int             `json:"young,omitempty"`      // >0: a chain of only this many blocks (fewer than 11 ancestors for the median time, nothing mature)
 	Blocks         []*ledger.Block `json:"blocks"`
 	Now0           int64           `json:"now0"`
@@ -272,6 +273,10 @@ func (H) Gen(prop string, seed uint64, tier string) *hx.Case {
 	if prop == "C17" {
 		cfg.WalletMinVal = []uint64{0, 1000, 500000000, 1500000000, 2500000000}[r.Intn(5)]
 		cfg.WalletUseMap = uint32(r.Range(2, 6))
+	}
+	if prop == "C07" && r.Chance(0.025) {
+		cfg.FreshDir = true
+		cfg.ClientRecovery = false
 	}
 	if prop == "C07" {
 		cfg.CrashPoints = 14
@@ -1146,6 +1151,20 @@ func (H) Run(t *testing.T, c *hx.Case) *hx.Outcome {
 	td := ensureTemplate(cfg, out)
 	root := hx.RunDir("chain", c.Seed)
 	defer os.RemoveAll(root)
+	if cfg.FreshDir {
+		// a node that has never written a snapshot: block files only.  The start-up code then takes its "no
+		// UTXO.db, no UTXO.old: start empty and re-apply everything" path (256 maps sized for the main net)
+		td2 := filepath.Join(root, "template-without-snapshot")
+		if err := simos.CopyTree(td, td2); err != nil {
+			fmt.Fprintln(os.Stderr, "chainsim: copy template:", err)
+			os.Exit(2)
+		}
+		os.Remove(filepath.Join(td2, "UTXO.db"))
+		os.Remove(filepath.Join(td2, "UTXO.old"))
+		os.RemoveAll(filepath.Join(td2, "undo"))
+		td = td2
+		out.Probe("started_without_any_snapshot", 1)
+	}
 	dir := filepath.Join(root, "node")
 	if err := simos.CopyTree(td, dir); err != nil {
 		fmt.Fprintln(os.Stderr, "chainsim: copy template:", err)
